@@ -113,13 +113,13 @@ contract(F + "StatisticalContinuumSampler.sample_from_continuum",
 SHUF = lambda: ObjT("ShuffleContinuumSampler", _reference_continuum=OptObjT(CONT()),       # noqa: E731
                     _ground_truth_annotators=OptObjT(ObjT("SetStr")), _pivot_type=StrT())
 
+from .speclib import PSUM_LEMMAS   # noqa: E402
+from .continuum import ITER_MACROS as _ITER_MACROS   # noqa: E402
 contract("pygamma_agreement/continuum.py::Continuum.avg_length_unit", params={"self": CONT()}, returns=RealT(), is_property=True,
-         macros=VIEW_MACROS, modifies=[], trusted=True,
+         macros=_ITER_MACROS, modifies=[], lemmas=PSUM_LEMMAS,
          requires=["RI(self)", "NumUnits(self) >= 1"],
-         ensures=[cl("result > 0", "C16", name="a-mean-of-positive-durations")],
-         notes="ASSUMED observer (generator-expression sum over the continuum's own iterator): the mean of durations that RI makes > 1e-6 "
-               "is positive; only its sign is used (the exclusion distance is positive)",
-         serves={"C16"})
+         ensures=[cl("result > 0", "C16 C19", name="a-mean-of-positive-durations")],
+         serves={"C16", "C19"})
 
 contract(F + "ShuffleContinuumSampler._random_from_segments",
          params={"self": SHUF(), "segments": ListOf(SegT())}, returns=RealT(), modifies=[], macros=COVER[:1], trusted=True,
@@ -266,3 +266,33 @@ contract(F + "StatisticalContinuumSampler._set_duration_information",
          hooks=[("after", "durations = ...", "DU = raw(durations)"),
                 ("after", "durations = ...", "model_inv wfmap(ref())")],
          serves={"C15"})
+
+# =========================================================================================================
+# init_sampling: establishes what sample_from_continuum requires (C15 / C16: "the ground-truth annotators")
+# =========================================================================================================
+ABSS = lambda: ObjT("AbstractContinuumSampler", _reference_continuum=OptObjT(CONT()), _ground_truth_annotators=OptObjT(ObjT("SetStr")))   # noqa: E731
+for _q, _T, _calls in ((F + "AbstractContinuumSampler.init_sampling#given", ABSS, {}),
+                       (F + "ShuffleContinuumSampler.init_sampling#given", SHUF, {"super().init_sampling": F + "AbstractContinuumSampler.init_sampling#given"})):
+    contract(_q, params={"self": _T(), "reference_continuum": CONT(), "ground_truth_annotators": OptT(ListOf(StrT()))},
+             modifies=["self"], macros=VIEW_MACROS, calls=_calls,
+             requires=["not isnone(ground_truth_annotators)"],
+             binds={"self._reference_continuum": "reference_continuum"},
+             raises={"AssertionError": {"iff": "not exists(k, 0, Nkeys(reference_continuum), Cnt(reference_continuum)[Kseq(reference_continuum)[k]] != 0) or "
+                                               "exists(j, 0, len(some(ground_truth_annotators)), not Ann(reference_continuum)[some(ground_truth_annotators)[j]])"}},
+             ensures=[cl("not isnone(self._reference_continuum) and not isnone(self._ground_truth_annotators)", "C15 C16", name="initialised"),
+                      cl("forall([(a, Real)], members(some(self._ground_truth_annotators))[a] == exists(j, 0, len(some(ground_truth_annotators)), "
+                         "some(ground_truth_annotators)[j] == a))", "C15 C16", name="the-ground-truth-annotators-are-exactly-the-given-ones"),
+                      cl("forall([(a, Real)], implies(members(some(self._ground_truth_annotators))[a], Ann(reference_continuum)[a]))", "C15 C16",
+                         name="they-are-annotators-of-the-reference")],
+             serves={"C15", "C16", "C05"})
+for _q, _T, _calls in ((F + "AbstractContinuumSampler.init_sampling#default", ABSS, {}),
+                       (F + "ShuffleContinuumSampler.init_sampling#default", SHUF, {"super().init_sampling": F + "AbstractContinuumSampler.init_sampling#default"})):
+    contract(_q, params={"self": _T(), "reference_continuum": CONT(), "ground_truth_annotators": OptT(ListOf(StrT()))},
+             modifies=["self"], macros=VIEW_MACROS, calls=_calls,
+             requires=["isnone(ground_truth_annotators)"],
+             binds={"self._reference_continuum": "reference_continuum"},
+             raises={"AssertionError": {"iff": "not exists(k, 0, Nkeys(reference_continuum), Cnt(reference_continuum)[Kseq(reference_continuum)[k]] != 0)"}},
+             ensures=[cl("not isnone(self._reference_continuum) and not isnone(self._ground_truth_annotators)", "C15 C16", name="initialised"),
+                      cl("members(some(self._ground_truth_annotators)) == Ann(reference_continuum)", "C15 C16",
+                         name="by-default-every-annotator-of-the-reference-is-ground-truth")],
+             serves={"C15", "C16", "C05"})
